@@ -19,6 +19,14 @@ def run(ck):
         ck.guard("C14-R4", r4_use, ck, F)
         ck.guard("C14-R5", r5_limit_asserts, ck, F, "C14-R5")
         ck.guard("C14-R5", r5_entries_guard, ck, F)
+        # an entry of any lengths — including a zero-length key — survives the write path: a block holding
+        # it is always flushed (the "no key yet" state is not confused with the empty key), and the framed
+        # bytes reach the sink whole and in order
+        from .c01 import r8_pending_block
+        from .c11 import r2_count_accepted, r1_write_all
+        ck.guard("C14-R7", r8_pending_block, ck, F, "C14-R7")
+        ck.guard("C14-R7", r2_count_accepted, ck, F, "C14-R7")
+        ck.guard("C14-R7", r1_write_all, ck, F, "C14-R7")
     if ck.tier == "thorough":
         ck.guard("C14-R6", r6_xver, ck)
     ck.trusted += ["rustc MIR construction", "integer shift/mask semantics"]
